@@ -11,7 +11,12 @@ import types
 import py_gql
 from py_gql import build_schema, process_graphql_query
 from py_gql.exc import ResolverError
-from py_gql.execution import BlockingExecutor, Executor, Instrumentation
+from py_gql.execution import (
+    BlockingExecutor,
+    Executor,
+    Instrumentation,
+    default_resolver as _lib_default_resolver,
+)
 from py_gql.execution.runtime import (
     AsyncIORuntime,
     BlockingRuntime,
@@ -335,11 +340,44 @@ class Bundle:
             self.sdl, additional_types=make_additional_types()
         )
         self.tables = {}
+        behaviours = spec.behaviours
+
+        # ONE function object registered on many fields (a generic resolver
+        # dispatching on info), and one used as per-type default resolver
+        def shared(root, ctx, info, **kwargs):
+            tname = info.parent_type.name
+            fname = info.field_definition.name
+            tok = _start(tname, fname, root, ctx, info)
+            ctx.count("shared_resolver_function")
+            return _finish(tname, fname, root, ctx, kwargs, tok)
+
+        def type_default(root, ctx, info, **kwargs):
+            tname = info.parent_type.name
+            fname = info.field_definition.name
+            if behaviours.get((tname, fname)) != "tdefault":
+                # a field meant for the library's default resolver
+                return _lib_default_resolver(root, ctx, info, **kwargs)
+            tok = _start(tname, fname, root, ctx, info)
+            ctx.count("type_default_resolver")
+            return _finish(tname, fname, root, ctx, kwargs, tok)
+
+        self.shared = shared
         for tname, tdef in spec.objects.items():
+            has_tdefault = False
             for f in tdef["fields"]:
-                if spec.behaviours[(tname, f)] == "default":
+                beh = behaviours[(tname, f)]
+                if beh == "default":
+                    continue
+                if beh == "tdefault":
+                    has_tdefault = True
+                    continue
+                if beh == "shared":
+                    self.tables[(tname, f)] = {
+                        "blocking": shared, "pool": shared, "asyncio": shared}
                     continue
                 self.tables[(tname, f)] = make_resolvers(spec, tname, f)
+            if has_tdefault:
+                self.schema.register_default_resolver(tname, type_default)
         self.mode = None
         for aname, how in spec.resolve_type.items():
             if how == "attr":
@@ -525,6 +563,8 @@ def run_config(config, bundle, request, world, stream, policy=None,
         variables=request.get("variables"),
         operation_name=request.get("operation_name"),
     )
+    if request.get("root") is not None:
+        kw["root"] = request["root"]
     kref = lambda: kernel  # noqa: E731
     if instrumentation_factory is not None:
         kw["instrumentation"] = instrumentation_factory(kref)
@@ -711,6 +751,8 @@ def run_overlapped(config, bundle, requests, worlds, stream, policy=None,
             context=ctx,
             instrumentation=Recorder(lambda: kernel, "R0", rid),
         ))
+        if request.get("root") is not None:
+            kws[-1]["root"] = request["root"]
     try:
         if mode == "asyncio":
             rt = AsyncIORuntime(
